@@ -3,6 +3,7 @@ import ElvisVerif.Model.Codec.Dns
 import ElvisVerif.Model.Codec.Dhcp
 import Driver.Common
 import Driver.C08
+import Driver.C14Path
 /-!
 Line-protocol handlers for the ARP / DNS / DHCP codec streams of C14 and C08
 (sub-commands `c14-arp`, `c14-dns`, `c14-dhcp`: malformed stream; `c14-rt-arp`, `c14-rt-dns`,
@@ -203,6 +204,7 @@ def dhcpStep (I : DhcpImpl) (_ : Unit) (ws : List String) : Unit × String :=
 
 def dispatch (sub : String) (i o : IO.FS.Stream) : Option (IO Unit) :=
   if let some act := dispatchCodecA sub i o then some act
+  else if let some act := Driver.C14Path.dispatch sub i o then some act
   else if sub == "c14-arp" || sub == "c14-rt-arp" then some (Driver.loop i o arpStep ())
   else if sub == "c14-dns" || sub == "c14-rt-dns" then some (Driver.loop i o (dnsStep false) ())
   else if sub == "c14-dns-v0" then some (Driver.loop i o (dnsStep true) ())
